@@ -2292,9 +2292,11 @@ def convert_mean_to_depthwise_conv(op, arch, nng):
 
         # reduce_axis[i] is true if axis i should be reduced
         if axis.shape == []:
-            reduce_axis = [True if i == axis.values else False for i in range(dims)]
+            axis_values = [int(axis.values)]
         else:
-            reduce_axis = [True if i in axis.values else False for i in range(dims)]
+            axis_values = list(axis.values)
+        axis_values = [ax + dims if ax < 0 else ax for ax in axis_values]  # Convert to positive axis
+        reduce_axis = [True if i in axis_values else False for i in range(dims)]
 
         ifm_shape = inp.shape.copy()
         intermediate_shape = op.ofm.shape.copy()
